@@ -15,6 +15,11 @@ are exercised by the correspondence under ASan/UBSan only.
 -/
 import SharkVerif.Lemmas.Import
 import SharkVerif.Lemmas.Peg
+import SharkVerif.Lemmas.ImportCsv
+import SharkVerif.Lemmas.ImportRt
+import SharkVerif.Lemmas.ExportFmt
+import SharkVerif.Lemmas.ExportSvm
+import SharkVerif.Lemmas.ExportCsv
 import SharkVerif.Model.ImportCsv
 import SharkVerif.Model.ExportFmt
 namespace SharkVerif.C19
@@ -788,6 +793,755 @@ theorem libsvm_roundtrip {V : Type} (zero : V) (labelInt : V → Option Int) (pt
   rw [hrows]
   rfl
 
+
+/-! ## LibSVM round trip with class-label mappings and sparse records (token level) -/
+
+open SharkVerif.Import.Export in
+/-- **LibSVM round trip, classification, sparse or dense inputs (token level).**  The records `exportSparseData`
+writes for a labelled dataset — per element the mapped class label (`-1/+1` for two classes with `oneMinusOne`,
+else `label + 1`) and `index+1:value` for the stored entries (strictly increasing indices below `d`; a dense
+vector stores every cell) — are read back by the importer logic, for every batch size argument, sparse or dense
+target vectors, as the same entries with the same class labels and `numberOfClasses` as label shape, when
+`highestIndex = d` is passed, class 0 occurs (otherwise the importer's min-shift renumbers: `csv_roundtrip_shift_witness`)
+and dense vectors fit the allocation limit. -/
+theorem libsvm_roundtrip_class {V : Type} (zero : V) (ofInt : Int → V) (labelInt : V → Option Int)
+    (pts : List (Nat × List (Nat × V))) (d bs limit : Nat) (sparse omo : Bool)
+    (hli : ∀ p ∈ pts, labelInt (ofInt (svmLabelOut omo p.1)) = some (svmLabelOut omo p.1))
+    (hidx : ∀ p ∈ pts, strictlyIncreasing (p.2.map (·.1)) = true ∧ ∀ q ∈ p.2, q.1 < d)
+    (hne : pts ≠ []) (h0 : 0 ∈ pts.map (·.1)) (homo : omo = true → ∀ p ∈ pts, p.1 ≤ 1)
+    (hlimit : sparse = true ∨ (initBatches pts.length bs).foldl max 1 * d ≤ limit) :
+    importRepaired zero labelInt { sparse := sparse, cls := true, dims := d, bs := bs, allocLimit := limit }
+        (pts.map fun p => ⟨ofInt (svmLabelOut omo p.1), p.2.map fun q => (q.1 + 1, q.2)⟩) =
+      .ok { shape := some d, lshape := some (numberOfClasses (pts.map (·.1))), batches := initBatches pts.length bs,
+            rows := pts.map (fun p => if sparse then Row.sparse d p.2 else Row.dense (denseRow zero d p.2)),
+            labels := .cls (pts.map (·.1)) } := by
+  have hsorted : (pts.map fun p => (⟨ofInt (svmLabelOut omo p.1), p.2.map fun q => (q.1 + 1, q.2)⟩ : Rec V)).all recSorted = true := by
+    rw [List.all_eq_true]; intro r hr
+    obtain ⟨p, hp, rfl⟩ := List.mem_map.mp hr
+    unfold recSorted
+    simp only [List.map_map]
+    have : ((fun (x : Nat × V) => x.1) ∘ fun (q : Nat × V) => (q.1 + 1, q.2)) = (fun n => n + 1) ∘ (fun (x : Nat × V) => x.1) := rfl
+    rw [this, ← List.map_map]
+    exact si_map (hidx p hp).1 (fun x _ y _ h => by omega)
+  have hmax : max (maxIndexLast (pts.map fun p => (⟨ofInt (svmLabelOut omo p.1), p.2.map fun q => (q.1 + 1, q.2)⟩ : Rec V))) d = d := by
+    apply Nat.max_eq_right
+    apply maxIndexLast_le
+    intro r hr q hq
+    obtain ⟨p, hp, rfl⟩ := List.mem_map.mp hr
+    simp only at hq
+    have hmem := List.mem_of_getLast? hq
+    obtain ⟨q', hq', rfl⟩ := List.mem_map.mp hmem
+    have := (hidx p hp).2 q' hq'
+    simp; omega
+  have hzero : hasZeroFirst (pts.map fun p => (⟨ofInt (svmLabelOut omo p.1), p.2.map fun q => (q.1 + 1, q.2)⟩ : Rec V)) = false := by
+    unfold hasZeroFirst
+    rw [List.any_eq_false]
+    intro r hr
+    obtain ⟨p, hp, rfl⟩ := List.mem_map.mp hr
+    cases hh : p.2 with
+    | nil => simp
+    | cons a t => simp
+  have hlab : classLabels ((pts.map fun p => (⟨ofInt (svmLabelOut omo p.1), p.2.map fun q => (q.1 + 1, q.2)⟩ : Rec V)).map
+      fun r => labelInt r.label) = some (pts.map (·.1)) := by
+    have hm : ((pts.map fun p => (⟨ofInt (svmLabelOut omo p.1), p.2.map fun q => (q.1 + 1, q.2)⟩ : Rec V)).map
+        fun r => labelInt r.label) = pts.map (fun p => some (svmLabelOut omo p.1)) := by
+      rw [List.map_map]; apply List.map_congr_left; intro p hp; exact hli p hp
+    rw [hm]
+    cases omo with
+    | false =>
+      have := classLabels_succ (pts.map (·.1)) h0
+      simpa [svmLabelOut, List.map_map, Function.comp_def] using this
+    | true =>
+      have := classLabels_pm1 (pts.map (·.1)) h0 (by
+        intro l hl; obtain ⟨p, hp, rfl⟩ := List.mem_map.mp hl; exact homo rfl p hp)
+      simpa [svmLabelOut, List.map_map, Function.comp_def] using this
+  have hpne : pts.isEmpty = false := by cases pts with
+    | nil => exact absurd rfl hne
+    | cons a t => rfl
+  unfold importRepaired
+  simp only [hsorted, Bool.not_true, Bool.false_eq_true, if_false, List.isEmpty_map, hpne, Bool.and_false, hmax, hzero]
+  rw [if_neg (by omega)]
+  simp only [labelsOf, if_true, hlab, Option.map_some]
+  unfold build
+  simp only [vecSize, deltaOf, Bool.false_eq_true, if_false, Nat.add_zero, List.length_map, List.map_map]
+  rw [if_neg (by
+    rcases hlimit with h | h
+    · simp [h]
+    · simp; intro _; omega)]
+  have hw : (List.map (writes 1 ∘ fun p => (⟨ofInt (svmLabelOut omo p.1), p.2.map fun q => (q.1 + 1, q.2)⟩ : Rec V)) pts) = pts.map (·.2) := by
+    apply List.map_congr_left
+    intro p _
+    simp only [Function.comp, writes, List.map_map]
+    conv => rhs; rw [← List.map_id p.2]
+    apply List.map_congr_left
+    intro q _
+    simp [writeIndex]
+  rw [hw]
+  have hoob : oobOf sparse d (pts.map (·.2)) = none := by
+    apply oobOf_none
+    intro ws hws w hw'
+    obtain ⟨p, hp, rfl⟩ := List.mem_map.mp hws
+    exact (hidx p hp).2 w hw'
+  rw [hoob]
+  simp only [finish, List.map_map, if_true]
+  have hle : (pts.map (·.1)).isEmpty = false := by simp [hpne]
+  rw [if_neg (by simp [hle])]
+  rfl
+
+/-- non-vacuity: two sparse elements, classes 0 and 1, written as `-1 2:7` and `+1 1:8 3:9` -/
+example : importRepaired (0 : Int) some { sparse := true, cls := true, dims := 3, bs := 0, allocLimit := 0 }
+    [⟨-1, [(2, 7)]⟩, ⟨1, [(1, 8), (3, 9)]⟩] =
+    .ok { shape := some 3, lshape := some 2, batches := [2], rows := [.sparse 3 [(1, 7)], .sparse 3 [(0, 8), (2, 9)]],
+          labels := .cls [0, 1] } := by decide
+
+/-- **LibSVM round trip, regression labels, sparse or dense stored entries (token level).**  Records
+`label index+1:value …` with strictly increasing indices below `d` are read back by the importer logic as the
+same entries (a sparse row, or the dense vector they fill) with the same labels, for every batch size argument. -/
+theorem libsvm_roundtrip_sparse {V : Type} (zero : V) (labelInt : V → Option Int)
+    (pts : List (V × List (Nat × V))) (d bs limit : Nat) (sparse : Bool)
+    (hidx : ∀ p ∈ pts, strictlyIncreasing (p.2.map (·.1)) = true ∧ ∀ q ∈ p.2, q.1 < d)
+    (hlimit : sparse = true ∨ (initBatches pts.length bs).foldl max 1 * d ≤ limit) :
+    importRepaired zero labelInt { sparse := sparse, cls := false, dims := d, bs := bs, allocLimit := limit }
+        (pts.map fun p => ⟨p.1, p.2.map fun q => (q.1 + 1, q.2)⟩) =
+      .ok { shape := some d, lshape := some 1, batches := initBatches pts.length bs,
+            rows := pts.map (fun p => if sparse then Row.sparse d p.2 else Row.dense (denseRow zero d p.2)),
+            labels := .reg (pts.map fun p => [p.1]) } := by
+  have hsorted : (pts.map fun p => (⟨p.1, p.2.map fun q => (q.1 + 1, q.2)⟩ : Rec V)).all recSorted = true := by
+    rw [List.all_eq_true]; intro r hr
+    obtain ⟨p, hp, rfl⟩ := List.mem_map.mp hr
+    unfold recSorted
+    simp only [List.map_map]
+    have : ((fun (x : Nat × V) => x.1) ∘ fun (q : Nat × V) => (q.1 + 1, q.2)) = (fun n => n + 1) ∘ (fun (x : Nat × V) => x.1) := rfl
+    rw [this, ← List.map_map]
+    exact si_map (hidx p hp).1 (fun x _ y _ h => by omega)
+  have hmax : max (maxIndexLast (pts.map fun p => (⟨p.1, p.2.map fun q => (q.1 + 1, q.2)⟩ : Rec V))) d = d := by
+    apply Nat.max_eq_right
+    apply maxIndexLast_le
+    intro r hr q hq
+    obtain ⟨p, hp, rfl⟩ := List.mem_map.mp hr
+    simp only at hq
+    have hmem := List.mem_of_getLast? hq
+    obtain ⟨q', hq', rfl⟩ := List.mem_map.mp hmem
+    have := (hidx p hp).2 q' hq'
+    simp; omega
+  have hzero : hasZeroFirst (pts.map fun p => (⟨p.1, p.2.map fun q => (q.1 + 1, q.2)⟩ : Rec V)) = false := by
+    unfold hasZeroFirst
+    rw [List.any_eq_false]
+    intro r hr
+    obtain ⟨p, hp, rfl⟩ := List.mem_map.mp hr
+    cases hh : p.2 with
+    | nil => simp
+    | cons a t => simp
+  unfold importRepaired
+  simp only [hsorted, Bool.not_true, Bool.false_eq_true, if_false, Bool.false_and, hmax, hzero]
+  rw [if_neg (by omega)]
+  simp only [labelsOf, Bool.false_eq_true, if_false]
+  unfold build
+  simp only [vecSize, deltaOf, Bool.false_eq_true, if_false, Nat.add_zero, List.length_map, List.map_map]
+  rw [if_neg (by
+    rcases hlimit with h | h
+    · simp [h]
+    · simp; intro _; omega)]
+  have hw : (List.map (writes 1 ∘ fun p => (⟨p.1, p.2.map fun q => (q.1 + 1, q.2)⟩ : Rec V)) pts) = pts.map (·.2) := by
+    apply List.map_congr_left
+    intro p _
+    simp only [Function.comp, writes, List.map_map]
+    conv => rhs; rw [← List.map_id p.2]
+    apply List.map_congr_left
+    intro q _
+    simp [writeIndex]
+  rw [hw]
+  have hoob : oobOf sparse d (pts.map (·.2)) = none := by
+    apply oobOf_none
+    intro ws hws w hw'
+    obtain ⟨p, hp, rfl⟩ := List.mem_map.mp hws
+    exact (hidx p hp).2 w hw'
+  rw [hoob]
+  simp only [finish, List.map_map]
+  rfl
+
+open SharkVerif.Import.Export in
+/-- **C19, second sentence, `exportSparseData` → `importSparseData` FROM BYTES (regression labels).**  For every
+dataset of binary64 values (labels and stored entries; indices strictly increasing below `d < 2^32`; sparse or
+dense target, any batch size, `highestIndex = d`): importing the bytes the exporter wrote yields the dataset whose
+labels and entries are the values read back token by token (`readBack` of the `%.6g` token: by `real_fmtG`
+spirit's conversion of the value rounded to 6 significant digits), in the same order, same indices, same shape. -/
+theorem libsvm_export_import_bytes (pts : List RegPoint) (d bs limit : Nat) (sparse : Bool)
+    (htok : ∀ p ∈ pts, isDouble p.1.1 = true ∧ readBack (svmNum p.1.1) = some p.1.2 ∧
+      ∀ q ∈ p.2, q.1 + 1 < 4294967296 ∧ isDouble q.2.1 = true ∧ readBack (svmNum q.2.1) = some q.2.2)
+    (hidx : ∀ p ∈ pts, strictlyIncreasing (p.2.map (·.1)) = true ∧ ∀ q ∈ p.2, q.1 < d)
+    (hlimit : sparse = true ∨ (initBatches pts.length bs).foldl max 1 * d ≤ limit) :
+    Svm.importBytes { sparse := sparse, cls := false, dims := d, bs := bs, allocLimit := limit }
+        (svmRegr (pts.map fun p => (p.1.1, p.2.map fun q => (q.1, q.2.1)))) =
+      .ok { shape := some d, lshape := some 1, batches := initBatches pts.length bs,
+            rows := pts.map (fun p => if sparse then Row.sparse d (p.2.map fun q => (q.1, q.2.2))
+                                      else Row.dense (denseRow Val.zero d (p.2.map fun q => (q.1, q.2.2)))),
+            labels := .reg (pts.map fun p => [p.1.2]) } := by
+  unfold Svm.importBytes
+  rw [svmRecords_svmRegr pts htok]
+  simp only [List.map_map]
+  have h := libsvm_roundtrip_sparse Val.zero Val.toInt32 (pts.map fun p => (p.1.2, p.2.map fun q => (q.1, q.2.2))) d bs limit sparse
+    (by
+      intro p' hp'
+      obtain ⟨p, hp, rfl⟩ := List.mem_map.mp hp'
+      have := hidx p hp
+      simp only [List.map_map] at this ⊢
+      refine ⟨by simpa [Function.comp_def] using this.1, ?_⟩
+      intro q' hq'
+      obtain ⟨q, hq, rfl⟩ := List.mem_map.mp hq'
+      exact this.2 q hq)
+    (by simpa using hlimit)
+  simp only [List.map_map, List.length_map, Function.comp_def] at h ⊢
+  exact h
+
+open SharkVerif.Import.Export in
+/-- non-vacuity: a two-element dataset `(2.5; x₁ = 1, x₃ = -0.25)`, `(-inf; x₂ = 0.1)` is written as below and imported
+again (sparse, `highestIndex` 3) with every value read back exactly — all of them have at most 6 significant digits -/
+example : svmRegr [(Val.fin false 5 (-1), [(0, Val.fin false 1 0), (2, Val.fin true 1 (-2))]),
+                   (Val.inf true, [(1, Val.fin false 3602879701896397 (-55))])]
+      = "2.5 1:1 3:-0.25\n-inf 2:0.1\n".toList ∧
+    Svm.importBytes { sparse := true, cls := false, dims := 3, bs := 0, allocLimit := 0 } "2.5 1:1 3:-0.25\n-inf 2:0.1\n".toList
+      = .ok { shape := some 3, lshape := some 1, batches := [2],
+              rows := [.sparse 3 [(0, Val.fin false 1 0), (2, Val.fin true 1 (-2))],
+                       .sparse 3 [(1, Val.fin false 3602879701896397 (-55))]],
+              labels := .reg [[Val.fin false 5 (-1)], [Val.inf true]] } := by decide
+
+open SharkVerif.Import.Export in
+/-- **C19, second sentence, `exportSparseData` → `importSparseData` FROM BYTES (class labels).**  For every labelled
+dataset (class indices below 2^31 - 1 with class 0 present, stored entries of binary64 values with strictly
+increasing indices below `d`; `oneMinusOne` on or off, `sortLabels` off; sparse or dense target, any batch size,
+`highestIndex = d`): importing the bytes the exporter wrote yields the same class labels — the label tokens
+(`-1` / `+1` or `label + 1`) are integers, which `double_` converts exactly (`real_intDigits`) and the importer's
+label logic maps back — `numberOfClasses` as label shape, and the entries read back token by token. -/
+theorem libsvm_export_import_bytes_class (pts : List ClsPoint) (omo : Bool) (d bs limit : Nat) (sparse : Bool)
+    (htok : ∀ p ∈ pts, p.1 + 1 < 2 ^ 31 ∧
+      ∀ q ∈ p.2, q.1 + 1 < 4294967296 ∧ isDouble q.2.1 = true ∧ readBack (svmNum q.2.1) = some q.2.2)
+    (hidx : ∀ p ∈ pts, strictlyIncreasing (p.2.map (·.1)) = true ∧ ∀ q ∈ p.2, q.1 < d)
+    (hne : pts ≠ []) (h0 : 0 ∈ pts.map (·.1))
+    (hlimit : sparse = true ∨ (initBatches pts.length bs).foldl max 1 * d ≤ limit) :
+    Svm.importBytes { sparse := sparse, cls := true, dims := d, bs := bs, allocLimit := limit }
+        (svmClass (pts.map fun p => (p.1, p.2.map fun q => (q.1, q.2.1))) omo false) =
+      .ok { shape := some d, lshape := some (numberOfClasses (pts.map (·.1))), batches := initBatches pts.length bs,
+            rows := pts.map (fun p => if sparse then Row.sparse d (p.2.map fun q => (q.1, q.2.2))
+                                      else Row.dense (denseRow Val.zero d (p.2.map fun q => (q.1, q.2.2)))),
+            labels := .cls (pts.map (·.1)) } := by
+  unfold Svm.importBytes
+  rw [svmRecords_svmClass pts omo htok]
+  generalize hO : (omo && (if pts.isEmpty then 1 else numberOfClasses (pts.map (·.1))) == 2) = O
+  have homo : O = true → ∀ p ∈ pts, p.1 ≤ 1 := by
+    intro hOt p hp
+    rw [hOt] at hO
+    simp only [Bool.and_eq_true, beq_iff_eq] at hO
+    have hpe : pts.isEmpty = false := by
+      cases pts with
+      | nil => exact absurd rfl hne
+      | cons a t => rfl
+    rw [hpe] at hO
+    simp only [Bool.false_eq_true, if_false] at hO
+    have := numberOfClasses_gt (pts.map (·.1)) p.1 (List.mem_map.mpr ⟨p, hp, rfl⟩)
+    omega
+  simp only [List.map_map]
+  have h := libsvm_roundtrip_class Val.zero Val.ofInt Val.toInt32
+    (pts.map fun p => (p.1, p.2.map fun q => (q.1, q.2.2))) d bs limit sparse O
+    (by
+      intro p' hp'
+      obtain ⟨p, hp, rfl⟩ := List.mem_map.mp hp'
+      obtain ⟨hz, _, hlo, hhi⟩ := svmLabelOut_props O p.1 (htok p hp).1 (fun hOt => homo hOt p hp)
+      exact toInt32_ofInt _ hz hlo hhi)
+    (by
+      intro p' hp'
+      obtain ⟨p, hp, rfl⟩ := List.mem_map.mp hp'
+      have := hidx p hp
+      simp only [List.map_map] at this ⊢
+      refine ⟨by simpa [Function.comp_def] using this.1, ?_⟩
+      intro q' hq'
+      obtain ⟨q, hq, rfl⟩ := List.mem_map.mp hq'
+      exact this.2 q hq)
+    (by simpa using hne)
+    (by simpa [List.map_map, Function.comp_def] using h0)
+    (by
+      intro hOt p' hp'
+      obtain ⟨p, hp, rfl⟩ := List.mem_map.mp hp'
+      exact homo hOt p hp)
+    (by simpa using hlimit)
+  simp only [List.map_map, List.length_map, Function.comp_def] at h ⊢
+  exact h
+
+open SharkVerif.Import.Export in
+/-- non-vacuity: classes 0 / 1 with `oneMinusOne`, written as `-1  2:7.5` and `1  1:8 3:9` (the exporter puts a blank
+after the label and one before each entry), imported again as the same dataset -/
+example : svmClass [(0, [(1, Val.fin false 15 (-1))]), (1, [(0, Val.fin false 1 3), (2, Val.fin false 9 0)])] true false
+      = "-1  2:7.5\n1  1:8 3:9\n".toList ∧
+    Svm.importBytes { sparse := true, cls := true, dims := 3, bs := 0, allocLimit := 0 } "-1  2:7.5\n1  1:8 3:9\n".toList
+      = .ok { shape := some 3, lshape := some 2, batches := [2],
+              rows := [.sparse 3 [(1, Val.fin false 15 (-1))], .sparse 3 [(0, Val.fin false 1 3), (2, Val.fin false 9 0)]],
+              labels := .cls [0, 1] } := by decide
+
+open SharkVerif.Import.Export in
+/-- **C19, second sentence for `exportSparseData` → `importSparseData`, from bytes, for EVERY dataset of binary64
+values, without hypothesis on the tokens** (regression labels and class labels).  Every value the exporter prints
+is accepted by the importer again (`readBack_fmtG_some`: the printed decimal exponent stays within spirit's range
+`[-614, 308]`, never `1e+309`), so the import of the exported bytes succeeds and returns the dataset with the same
+structure — element count, indices, shape, batches, class labels exactly — whose values are `reimport6 v`: spirit's
+reading of `v` rounded to 6 significant decimal digits (`value_bytes_roundtrip_general`, `printed_decimal_is_nearest`). -/
+theorem libsvm_export_import_bytes_all (d bs limit : Nat) (sparse : Bool) :
+    (∀ (pts : List (Val × List (Nat × Val))),
+      (∀ p ∈ pts, isDouble p.1 = true ∧ ∀ q ∈ p.2, q.1 + 1 < 4294967296 ∧ isDouble q.2 = true) →
+      (∀ p ∈ pts, strictlyIncreasing (p.2.map (·.1)) = true ∧ ∀ q ∈ p.2, q.1 < d) →
+      (sparse = true ∨ (initBatches pts.length bs).foldl max 1 * d ≤ limit) →
+      Svm.importBytes { sparse := sparse, cls := false, dims := d, bs := bs, allocLimit := limit } (svmRegr pts) =
+        .ok { shape := some d, lshape := some 1, batches := initBatches pts.length bs,
+              rows := pts.map (fun p => if sparse then Row.sparse d (p.2.map fun q => (q.1, reimport6 q.2))
+                                        else Row.dense (denseRow Val.zero d (p.2.map fun q => (q.1, reimport6 q.2)))),
+              labels := .reg (pts.map fun p => [reimport6 p.1]) }) ∧
+    (∀ (pts : List (Nat × List (Nat × Val))) (omo : Bool),
+      (∀ p ∈ pts, p.1 + 1 < 2 ^ 31 ∧ ∀ q ∈ p.2, q.1 + 1 < 4294967296 ∧ isDouble q.2 = true) →
+      (∀ p ∈ pts, strictlyIncreasing (p.2.map (·.1)) = true ∧ ∀ q ∈ p.2, q.1 < d) →
+      pts ≠ [] → 0 ∈ pts.map (·.1) →
+      (sparse = true ∨ (initBatches pts.length bs).foldl max 1 * d ≤ limit) →
+      Svm.importBytes { sparse := sparse, cls := true, dims := d, bs := bs, allocLimit := limit } (svmClass pts omo false) =
+        .ok { shape := some d, lshape := some (numberOfClasses (pts.map (·.1))), batches := initBatches pts.length bs,
+              rows := pts.map (fun p => if sparse then Row.sparse d (p.2.map fun q => (q.1, reimport6 q.2))
+                                        else Row.dense (denseRow Val.zero d (p.2.map fun q => (q.1, reimport6 q.2)))),
+              labels := .cls (pts.map (·.1)) }) := by
+  constructor
+  · intro pts hv hidx hlimit
+    have h := libsvm_export_import_bytes
+      (pts.map fun p => ((p.1, reimport6 p.1), p.2.map fun q => (q.1, q.2, reimport6 q.2))) d bs limit sparse
+      (by
+        intro p' hp'
+        obtain ⟨p, hp, rfl⟩ := List.mem_map.mp hp'
+        refine ⟨(hv p hp).1, readBack_svmNum _ (hv p hp).1, ?_⟩
+        intro q' hq'
+        obtain ⟨q, hq, rfl⟩ := List.mem_map.mp hq'
+        exact ⟨((hv p hp).2 q hq).1, ((hv p hp).2 q hq).2, readBack_svmNum _ ((hv p hp).2 q hq).2⟩)
+      (by
+        intro p' hp'
+        obtain ⟨p, hp, rfl⟩ := List.mem_map.mp hp'
+        have := hidx p hp
+        simp only [List.map_map] at this ⊢
+        refine ⟨by simpa [Function.comp_def] using this.1, ?_⟩
+        intro q' hq'
+        obtain ⟨q, hq, rfl⟩ := List.mem_map.mp hq'
+        exact this.2 q hq)
+      (by simpa using hlimit)
+    simp only [List.map_map, List.length_map, Function.comp_def, List.map_id'] at h
+    have hid : (pts.map fun p => (p.1, p.2.map fun q => (q.1, q.2))) = pts := by
+      conv => rhs; rw [← List.map_id pts]
+      apply List.map_congr_left
+      intro p _
+      simp
+    simpa [hid] using h
+  · intro pts omo hv hidx hne h0 hlimit
+    have h := libsvm_export_import_bytes_class
+      (pts.map fun p => (p.1, p.2.map fun q => (q.1, q.2, reimport6 q.2))) omo d bs limit sparse
+      (by
+        intro p' hp'
+        obtain ⟨p, hp, rfl⟩ := List.mem_map.mp hp'
+        refine ⟨(hv p hp).1, ?_⟩
+        intro q' hq'
+        obtain ⟨q, hq, rfl⟩ := List.mem_map.mp hq'
+        exact ⟨((hv p hp).2 q hq).1, ((hv p hp).2 q hq).2, readBack_svmNum _ ((hv p hp).2 q hq).2⟩)
+      (by
+        intro p' hp'
+        obtain ⟨p, hp, rfl⟩ := List.mem_map.mp hp'
+        have := hidx p hp
+        simp only [List.map_map] at this ⊢
+        refine ⟨by simpa [Function.comp_def] using this.1, ?_⟩
+        intro q' hq'
+        obtain ⟨q, hq, rfl⟩ := List.mem_map.mp hq'
+        exact this.2 q hq)
+      (by simpa using hne)
+      (by simpa [List.map_map, Function.comp_def] using h0)
+      (by simpa using hlimit)
+    simp only [List.map_map, List.length_map, Function.comp_def] at h
+    have hid : (pts.map fun p => (p.1, p.2.map fun q => (q.1, q.2))) = pts := by
+      conv => rhs; rw [← List.map_id pts]
+      apply List.map_congr_left
+      intro p _
+      simp
+    simpa [hid] using h
+
+open SharkVerif.Import.Export in
+/-- **C19, byte-level round trip of a value in `%.<p>g` format, every binary64 value** (`exportSparseData`: `%.6g`;
+`exportCSV` with `scientific = false`: `%.10g`).  There are a mantissa `mant` and a count `z` of stripped trailing
+zeros with `mant · 10^z = ds`, `(ds, ex) = sciDigits (P-1) v` the value rounded to `P` significant digits, such
+that for everything that may follow the token (no digit, `.`, `e`, `E`) `double_` consumes exactly the token and
+returns spirit's conversion of `mant · 10^(ex-(P-1)+z)` — the same decimal.  Infinite, NaN and zero tokens:
+`real_fmtG_tok` (`Lemmas/ExportSvm.lean`), used by `libsvm_export_import_bytes`. -/
+theorem value_bytes_roundtrip_general (p0 : Nat) (neg : Bool) (m : Nat) (e2 : Int) (hm : m ≠ 0)
+    (hv : isDouble (.fin neg m e2) = true) :
+    ∃ mant z : Nat,
+      mant * 10 ^ z = (sciDigits ((if p0 = 0 then 1 else p0) - 1) (Val.fin neg m e2).ratOf.1 (Val.fin neg m e2).ratOf.2).1 ∧
+      ∀ rest : List Char, NumEnd rest → real (fmtG p0 (Val.fin neg m e2) ++ rest) = scaled neg mant
+        ((sciDigits ((if p0 = 0 then 1 else p0) - 1) (Val.fin neg m e2).ratOf.1 (Val.fin neg m e2).ratOf.2).2
+          - (((if p0 = 0 then 1 else p0) - 1 : Nat) : Int) + (z : Int)) rest := by
+  obtain ⟨mant, z, h1, _, h2⟩ := real_fmtG p0 neg m e2 hm hv
+  exact ⟨mant, z, h1, h2⟩
+
+open SharkVerif.Import.Export in
+/-- non-vacuity: the three layouts of `%g` — `123.5`, `0.00025`, `1e+06` -/
+example : fmtG 6 (Val.fin false 247 (-1)) = "123.5".toList ∧
+    real (fmtG 6 (Val.fin false 247 (-1)) ++ [' ']) = some (Val.fin false 247 (-1), [' ']) := by decide
+
+open SharkVerif.Import.Export in
+example : fmtG 6 (Val.fin false 15625 6) = "1e+06".toList ∧
+    real ("1e+06".toList ++ [',']) = some (Val.fin false 15625 6, [',']) := by decide
+
+open SharkVerif.Import.Export in
+example : fmtG 6 (Val.fin false 1 (-12)) = "0.000244141".toList ∧
+    (real ("0.000244141".toList ++ ['\n'])).map (·.2) = some ['\n'] := by decide
+
+/-! ## printed numbers at BYTE level: character set, and what the lexers read back -/
+
+open SharkVerif.Import.Export in
+/-- **C19, character set of everything the exporters print.**  Every number (`%.<p>e`, `%.<p>g`, any precision, any
+value incl. inf / nan / zeros), every class label and feature index consists only of digits, sign, `.`, `e` and the
+letters of `inf` / `nan`; a CSV cell additionally of the blanks `setw` pads with.  Hence a separator that is not one
+of these characters never occurs inside a cell — the separator hypothesis of the token-level round-trip theorems
+is a checked fact for every such separator, every format and field width. -/
+theorem printed_number_charset (p : Nat) (v : Val) (n : Nat) (i : Int) (sci : Bool) (w : Nat) (sep : Char)
+    (hsep : numChar sep = false) (hb : sep ≠ ' ') :
+    AllNum (fmtE p v) ∧ AllNum (fmtG p v) ∧ AllNum (natDigits n) ∧ AllNum (intDigits i) ∧
+    sep ∉ csvNum sci w v ∧ sep ∉ svmNum v ∧ sep ∉ natDigits n ∧ sep ∉ intDigits i := by
+  have hnot : ∀ s : List Char, AllNum s → sep ∉ s := by
+    intro s hs hmem
+    have := hs sep hmem
+    rw [hsep] at this; exact absurd this (by decide)
+  exact ⟨fmtE_chars p v, fmtG_chars p v, AllNum.natDigits n, AllNum.intDigits i, csvNum_no_separator sci w v sep hsep hb,
+    hnot _ (svmNum_chars v), hnot _ (AllNum.natDigits n), hnot _ (AllNum.intDigits i)⟩
+
+open SharkVerif.Import.Export in
+/-- non-vacuity: the separators of the generated stream (and `:` / line feed of the LibSVM format) qualify; the
+characters of a number do not — with `-`, `+`, `.`, `e` or a digit as separator the written file is ambiguous,
+with `E` it is too (`1E2`), which is why the round trip is claimed for separators outside these only -/
+example : (([',', ';', '\t', '|', ':', '/', '_', '@', '&', '\n'] : List Char).all fun c => !numChar c) = true ∧
+    ((['-', '+', '.', 'e', '0', '9'] : List Char).all numChar) = true := by decide
+
+open SharkVerif.Import.Export in
+/-- **C19, byte-level round trip of the integers the exporters print (exact).**  Class labels (`natDigits`, or
+`intDigits` for `-1` / `+1`) are read back by `int_`, feature indices by `uint_`, as exactly the printed integer,
+whatever follows the token as long as it does not start with a digit (separator, `:`, blank, line end, end of
+input), for every value in the range of the C++ type. -/
+theorem label_index_bytes_roundtrip (n : Nat) (i : Int) (rest : List Char) (hr : NoDigitHead rest) :
+    (n ≤ 2147483647 → Import.int (natDigits n ++ rest) = some ((n : Int), rest)) ∧
+    (-2147483648 ≤ i → i ≤ 2147483647 → Import.int (intDigits i ++ rest) = some (i, rest)) ∧
+    (n < 4294967296 → uint (natDigits n ++ rest) = some (n, rest)) :=
+  ⟨fun h => int_natDigits n rest h hr, fun h1 h2 => int_intDigits i rest h1 h2 hr, fun h => uint_natDigits n rest h hr⟩
+
+open SharkVerif.Import.Export in
+example : Import.int (intDigits (-1) ++ " 1:5".toList) = some (-1, " 1:5".toList) ∧
+    uint (natDigits 4294967295 ++ ":7".toList) = some (4294967295, ":7".toList) ∧
+    NoDigitHead ",1".toList := by
+  refine ⟨by decide, by decide, ?_⟩
+  intro c t h; injection h with h1 _; subst h1; decide
+
+open SharkVerif.Import.Export in
+/-- **C19, byte-level round trip of a value in scientific format, for every binary64 value** (`exportCSV` with
+`scientific = true`, the default).  `double_` applied to the bytes `%.<p>e` printed for the finite non-zero
+double `± m·2^e` — followed by anything that does not start with a digit — consumes exactly the token and returns
+spirit's conversion (`scaled`, every rounding of `real_impl` modelled) of the DECIMAL ROUNDING of the value to
+`p + 1` significant digits, `(ds, ex) = sciDigits p v`.  That is the precise content of "equals the original up
+to the printed precision": `exportCSV` prints 11 significant digits (`precision(10)`), so the re-imported double
+is the reading of that 11-digit decimal, in general not bit-identical to the original (witness below); values with
+at most 11 significant decimal digits — all integers below 10^11 and short dyadic fractions — come back exactly. -/
+theorem value_bytes_roundtrip_sci (p : Nat) (neg : Bool) (m : Nat) (e2 : Int) (rest : List Char) (hp : 0 < p)
+    (hm : m ≠ 0) (hv : isDouble (.fin neg m e2) = true) (hr : NoDigitHead rest) :
+    real (fmtE p (Val.fin neg m e2) ++ rest)
+      = scaled neg (sciDigits p (Val.fin neg m e2).ratOf.1 (Val.fin neg m e2).ratOf.2).1
+          ((sciDigits p (Val.fin neg m e2).ratOf.1 (Val.fin neg m e2).ratOf.2).2 - (p : Int)) rest ∧
+    (sciDigits p (Val.fin neg m e2).ratOf.1 (Val.fin neg m e2).ratOf.2).1 < 10 ^ (p + 1) :=
+  ⟨real_fmtE_double p neg m e2 rest hp hm hv hr, sciDigits_lt p _ _ (ratOf_bounds neg m e2 hv).2.1⟩
+
+open SharkVerif.Import.Export in
+/-- non-vacuity and exactness for short values: `-2.5` is printed as `-2.5000000000e+00` and read back as `-2.5`;
+`0.1` (= 3602879701896397 · 2^-55) is printed as `1.0000000000e-01` and read back as the same double; the
+neighbour of `0.1` one ulp above is printed identically, so it does NOT come back (precision 10 is not bit-exact) -/
+example : real (fmtE 10 (Val.fin true 5 (-1)) ++ [',']) = some (Val.fin true 5 (-1), [',']) ∧
+    real (fmtE 10 (Val.fin false 3602879701896397 (-55)) ++ ['\n']) = some (Val.fin false 3602879701896397 (-55), ['\n']) ∧
+    fmtE 10 (Val.fin false 1801439850948199 (-54)) = fmtE 10 (Val.fin false 3602879701896397 (-55)) ∧
+    isDouble (Val.fin false 3602879701896397 (-55)) = true := by decide
+
+open SharkVerif.Import.Export in
+/-- **C19, "up to the printed precision" made precise.**  The decimal `ds · 10^(ex-p)` that `%.<p>e` / `%.<p+1>g`
+print for the positive rational `n/d` (`(ds, ex) = sciDigits p n d`) has at most `p + 1` digits and differs from
+`n/d` by at most half a unit in the last printed place: with `e0 = decExp n d`, `|(n/d)·10^(p-e0) - ds·10^(ex-e0)| ≤ ½`
+(stated without division), `ex ∈ {e0, e0+1}`.  Together with `value_bytes_roundtrip_sci` / `_general`: the
+re-imported value is spirit's reading of the correctly rounded (`p+1`)-digit decimal of the original. -/
+theorem printed_decimal_is_nearest (p n d : Nat) (hd : 0 < d) :
+    (sciDigits p n d).1 < 10 ^ (p + 1) ∧
+    ((sciDigits p n d).2 = decExp n d ∨ (sciDigits p n d).2 = decExp n d + 1) ∧
+    2 * (((if (p : Int) - decExp n d ≥ 0 then n * 10 ^ ((p : Int) - decExp n d).toNat else n : Nat) : Int)
+          - ((sciDigits p n d).1 * 10 ^ ((sciDigits p n d).2 - decExp n d).toNat : Nat)
+            * ((if (p : Int) - decExp n d ≥ 0 then d else d * 10 ^ (-((p : Int) - decExp n d)).toNat : Nat) : Int)).natAbs
+      ≤ (if (p : Int) - decExp n d ≥ 0 then d else d * 10 ^ (-((p : Int) - decExp n d)).toNat) :=
+  ⟨sciDigits_lt p n d hd, (sciDigits_nearest p n d hd).1, (sciDigits_nearest p n d hd).2⟩
+
+open SharkVerif.Import.Export in
+/-- non-vacuity: 2/3 to 4 significant digits is 6667 · 10^-4 (rounded up), 1999.96 to 4 digits carries to 2.000e+03 -/
+example : sciDigits 3 2 3 = (6667, -1) ∧ decExp 2 3 = -1 ∧ sciDigits 3 199996 100 = (2000, 3) ∧
+    sciDigits 2 9996 1 = (100, 4) ∧ decExp 9996 1 = 3 := by decide
+
+/-! ## `exportCSV` → `csvStringToData` from bytes -/
+
+open SharkVerif.Import.Export in
+/-- **C19, second sentence, `exportCSV` → `csvStringToData` FROM BYTES (unlabelled data and vector labels).**  For every
+non-empty dataset of binary64 values with `d ≥ 1` inputs (and `dOut` outputs), every separator / comment character
+allowed by `SepOk` (the separator is not white space, NUL, a character of a number, `E`, `i`/`I` or `(`; the
+comment character is not a character of a number or the line feed), scientific format on or off, field width 0,
+label position first or last and every maximum batch size (0 = unlimited): the exporter writes some bytes, and
+importing these bytes returns the dataset with the same number of elements, the same dimensions and batch partition
+as a direct construction, whose values are `reimportCsv sci v` — spirit's reading of `v` rounded to 11 significant
+digits (`value_bytes_roundtrip_sci` / `_general`, `printed_decimal_is_nearest`); no printed value is rejected. -/
+theorem csv_export_import_bytes {sep comment : Char} (hs : SepOk sep comment) (sci : Bool) (maxB : Nat) :
+    (∀ (rows : List (List Val)) (d : Nat), rows ≠ [] → 0 < d →
+      (∀ r ∈ rows, r.length = d ∧ ∀ v ∈ r, isDouble v = true) →
+      ∃ bytes, csvRows rows sep sci 0 = some bytes ∧
+        Csv.importRowsBytes bytes sep comment maxB =
+          .ok { shape := some d, lshape := none, batches := optimalBatchSizes rows.length maxB,
+                rows := rows.map (fun r => Row.dense (r.map (reimportCsv sci))), labels := .none }) ∧
+    (∀ (pts : List (List Val × List Val)) (labelFirst : Bool) (dIn dOut : Nat), pts ≠ [] → 0 < dIn →
+      (∀ p ∈ pts, p.1.length = dIn ∧ p.2.length = dOut ∧ (∀ v ∈ p.1, isDouble v = true) ∧ ∀ v ∈ p.2, isDouble v = true) →
+      ∃ bytes, csvRegr pts labelFirst sep sci 0 = some bytes ∧
+        Csv.importRegrBytes bytes labelFirst dOut sep comment maxB =
+          .ok { shape := some dIn, lshape := some dOut, batches := optimalBatchSizes pts.length maxB,
+                rows := pts.map (fun p => Row.dense (p.1.map (reimportCsv sci))),
+                labels := .reg (pts.map fun p => p.2.map (reimportCsv sci)) }) := by
+  constructor
+  · intro rows d hne hd hrow
+    obtain ⟨bytes, hb, hread⟩ := readRows_csvRows hs sci rows hne (fun r hr => by
+      refine ⟨?_, (hrow r hr).2⟩
+      intro h; have := (hrow r hr).1; rw [h] at this; simp at this; omega)
+    refine ⟨bytes, hb, ?_⟩
+    unfold Csv.importRowsBytes
+    rw [hread]
+    simp only
+    obtain ⟨r0, rest, rfl⟩ : ∃ r0 rest, rows = r0 :: rest := by
+      cases rows with
+      | nil => exact absurd rfl hne
+      | cons a t => exact ⟨a, t, rfl⟩
+    have hall : (((r0 :: rest).map fun r => r.map (reimportCsv sci)).all fun r => r.length == (r0.map (reimportCsv sci)).length) = true := by
+      rw [List.all_eq_true]
+      intro r hr
+      obtain ⟨r', hr', rfl⟩ := List.mem_map.mp hr
+      simp [(hrow r' hr').1, (hrow r0 (by simp)).1]
+    simp only [List.map_cons, Csv.importRows] at hall ⊢
+    rw [if_pos hall]
+    simp [(hrow r0 (by simp)).1, List.map_map, Function.comp_def]
+  · intro pts labelFirst dIn dOut hne hd hpt
+    obtain ⟨bytes, hb, hread⟩ := readRows_csvRegr hs sci labelFirst pts hne (fun p hp => by
+      refine ⟨?_, (hpt p hp).2.2.1, (hpt p hp).2.2.2⟩
+      intro h; have := (hpt p hp).1; rw [h] at this; simp at this; omega)
+    refine ⟨bytes, hb, ?_⟩
+    unfold Csv.importRegrBytes
+    rw [hread]
+    simp only
+    have h := csv_roundtrip_regression (pts.map fun p => (p.1.map (reimportCsv sci), p.2.map (reimportCsv sci))) labelFirst dIn dOut maxB
+      (by intro p' hp'; obtain ⟨p, hp, rfl⟩ := List.mem_map.mp hp'; simp [(hpt p hp).1])
+      (by intro p' hp'; obtain ⟨p, hp, rfl⟩ := List.mem_map.mp hp'; simp [(hpt p hp).2.1])
+      hd (by simpa using hne)
+    simp only [List.map_map, Function.comp_def, List.length_map] at h ⊢
+    exact h
+
+open SharkVerif.Import.Export in
+/-- **C19, second sentence, `exportCSV` → `csvStringToData` FROM BYTES, class labels in the first column.**  For every
+non-empty labelled dataset (class indices below 2^31 with class 0 present, `d ≥ 1` inputs of binary64 values), every
+`SepOk` separator / comment character, scientific format on or off, field width 0 and every maximum batch size: the
+exported bytes are read by the FIRST_COLUMN point grammar (`lexeme[int_ >> -('.' >> *'0') >> !digit] >> *(sep >> cell)`)
+record by record, and the import yields the same labels, dimensions and batch partition with every input value
+`reimportCsv sci v`. -/
+theorem csv_export_import_bytes_class_first {sep comment : Char} (hs : SepOk sep comment) (sci : Bool) (maxB : Nat)
+    (pts : List (Nat × List Val)) (d : Nat) (hne : pts ≠ []) (hd : 0 < d)
+    (hpt : ∀ p ∈ pts, p.1 ≤ 2147483647 ∧ p.2.length = d ∧ ∀ v ∈ p.2, isDouble v = true)
+    (h0 : 0 ∈ pts.map (·.1)) :
+    ∃ bytes, csvClass pts true sep sci 0 = some bytes ∧
+      Csv.importClassBytes bytes true sep comment maxB =
+        .ok { shape := some d, lshape := none, batches := optimalBatchSizes pts.length maxB,
+              rows := pts.map (fun p => Row.dense (p.2.map (reimportCsv sci))), labels := .cls (pts.map (·.1)) } := by
+  obtain ⟨bytes, hb, hread⟩ := readPointsFirst_csvClass hs sci pts hne (fun p hp => by
+    refine ⟨(hpt p hp).1, ?_, (hpt p hp).2.2⟩
+    intro h; have := (hpt p hp).2.1; rw [h] at this; simp at this; omega)
+  refine ⟨bytes, hb, ?_⟩
+  unfold Csv.importClassBytes
+  simp only [if_true, hread]
+  have h := csv_roundtrip (pts.map fun p => (p.1, p.2.map (reimportCsv sci))) d maxB
+    (by intro p' hp'; obtain ⟨p, hp, rfl⟩ := List.mem_map.mp hp'; simp [(hpt p hp).2.1])
+    (by simpa using hne) (by simpa [List.map_map, Function.comp_def] using h0)
+  simp only [List.map_map, Function.comp_def, List.length_map] at h ⊢
+  exact h
+
+open SharkVerif.Import.Export in
+/-- non-vacuity: classes 0 / 1 in the first column, `%.10g`, `|` as separator -/
+example : csvClass [(0, [Val.fin false 5 (-1), Val.fin true 1 0]), (1, [Val.fin false 3 0, Val.fin false 1 (-2)])] true '|' false 0
+      = some "0|2.5|-1\n1|3|0.25\n".toList ∧
+    Csv.importClassBytes "0|2.5|-1\n1|3|0.25\n".toList true '|' '#' 1
+      = .ok { shape := some 2, lshape := none, batches := [1, 1],
+              rows := [.dense [Val.fin false 5 (-1), Val.fin true 1 0], .dense [Val.fin false 3 0, Val.fin false 1 (-2)]],
+              labels := .cls [0, 1] } := by decide
+
+open SharkVerif.Import.Export in
+/-- **C19, second sentence, `exportCSV` → `csvStringToData` FROM BYTES, class labels in the last column.**  As
+`csv_export_import_bytes_class_first`, for LAST_COLUMN: the exported bytes are consumed by the hand-written record loop
+(`do { phrase_parse(*(cell >> sep) >> label >> (+eol | eoi)) } while(r && first != last)`) one record per call — the
+`cell >> sep` loop backs off the label token because a line feed, not the separator, follows it — and the import
+yields the same labels, dimensions, batch partition, with every input value `reimportCsv sci v`. -/
+theorem csv_export_import_bytes_class_last {sep comment : Char} (hs : SepOk sep comment) (sci : Bool) (maxB : Nat)
+    (pts : List (Nat × List Val)) (d : Nat) (hne : pts ≠ []) (hd : 0 < d)
+    (hpt : ∀ p ∈ pts, p.1 ≤ 2147483647 ∧ p.2.length = d ∧ ∀ v ∈ p.2, isDouble v = true)
+    (h0 : 0 ∈ pts.map (·.1)) :
+    ∃ bytes, csvClass pts false sep sci 0 = some bytes ∧
+      Csv.importClassBytes bytes false sep comment maxB =
+        .ok { shape := some d, lshape := none, batches := optimalBatchSizes pts.length maxB,
+              rows := pts.map (fun p => Row.dense (p.2.map (reimportCsv sci))), labels := .cls (pts.map (·.1)) } := by
+  obtain ⟨bytes, hb, hread⟩ := readPointsLast_csvClass hs sci pts hne (fun p hp => by
+    refine ⟨(hpt p hp).1, ?_, (hpt p hp).2.2⟩
+    intro h; have := (hpt p hp).2.1; rw [h] at this; simp at this; omega)
+  refine ⟨bytes, hb, ?_⟩
+  unfold Csv.importClassBytes
+  simp only [Bool.false_eq_true, if_false, hread]
+  have h := csv_roundtrip (pts.map fun p => (p.1, p.2.map (reimportCsv sci))) d maxB
+    (by intro p' hp'; obtain ⟨p, hp, rfl⟩ := List.mem_map.mp hp'; simp [(hpt p hp).2.1])
+    (by simpa using hne) (by simpa [List.map_map, Function.comp_def] using h0)
+  simp only [List.map_map, Function.comp_def, List.length_map] at h ⊢
+  exact h
+
+open SharkVerif.Import.Export in
+/-- non-vacuity: classes 0 / 1 in the last column, scientific format, `,` -/
+example : csvClass [(0, [Val.fin false 5 (-1)]), (1, [Val.fin true 3 0])] false ',' true 0
+      = some "2.5000000000e+00,0\n-3.0000000000e+00,1\n".toList ∧
+    Csv.importClassBytes "2.5000000000e+00,0\n-3.0000000000e+00,1\n".toList false ',' '#' 0
+      = .ok { shape := some 1, lshape := none, batches := [2],
+              rows := [.dense [Val.fin false 5 (-1)], .dense [Val.fin true 3 0]], labels := .cls [0, 1] } := by decide
+
+open SharkVerif.Import.Export in
+/-- non-vacuity: the separator / comment pairs of the generated stream satisfy `SepOk`; blanks, NUL, characters of a
+number, `E`, `I`, `(` do not -/
+example : SepOk ',' '#' ∧ SepOk ';' '%' ∧ SepOk '|' '!' ∧ SepOk ':' '#' ∧ SepOk '@' ';' := by
+  refine ⟨⟨?_, ?_, ?_, ?_, ?_, ?_, ?_, ?_, ?_⟩, ⟨?_, ?_, ?_, ?_, ?_, ?_, ?_, ?_, ?_⟩, ⟨?_, ?_, ?_, ?_, ?_, ?_, ?_, ?_, ?_⟩,
+    ⟨?_, ?_, ?_, ?_, ?_, ?_, ?_, ?_, ?_⟩, ⟨?_, ?_, ?_, ?_, ?_, ?_, ?_, ?_, ?_⟩⟩ <;> decide
+
+open SharkVerif.Import.Export in
+/-- non-vacuity: `(2.5, -1)`, `(0.1, -inf)` written with `;` in scientific format and imported again, one batch -/
+example : csvRows [[Val.fin false 5 (-1), Val.fin true 1 0], [Val.fin false 3602879701896397 (-55), Val.inf true]] ';' true 0
+      = some "2.5000000000e+00;-1.0000000000e+00\n1.0000000000e-01;-inf\n".toList ∧
+    Csv.importRowsBytes "2.5000000000e+00;-1.0000000000e+00\n1.0000000000e-01;-inf\n".toList ';' '#' 0
+      = .ok { shape := some 2, lshape := none, batches := [2],
+              rows := [.dense [Val.fin false 5 (-1), Val.fin true 1 0],
+                       .dense [Val.fin false 3602879701896397 (-55), Val.inf true]], labels := .none } := by decide
+
+/-! ## the hand-written LAST_COLUMN record loop terminates; the grammars as written in `Csv.cpp` -/
+
+open SharkVerif.Peg in
+/-- **C19, "never hang" for the record loop of `import_csv_reader_points(…, LAST_COLUMN, …)`.**  `parser_total`
+covers one `phrase_parse` call; the loop `do { … } while(r && first != last)` around it is hand-written C++.  For
+every byte sequence, separator and comment character: each successful call consumes at least one byte (the label
+grammar demands a digit), so the loop never repeats a call at the same position (`spin`) and finishes within
+`length + 1` iterations (`fuel`); the importer model's reader is exactly this loop. -/
+theorem last_column_loop_terminates (bytes : List Char) (sep comment : Char) :
+    Csv.readPointsLast bytes sep comment =
+      (Csv.readPointsLastLoopR (if Csv.wsSep sep then pointLastWs else pointLastSep sep) (csvSkipper comment)
+        (bytes.length + 1) bytes []).toOption ∧
+    Csv.readPointsLastLoopR (if Csv.wsSep sep then pointLastWs else pointLastSep sep) (csvSkipper comment)
+        (bytes.length + 1) bytes [] ≠ .spin ∧
+    Csv.readPointsLastLoopR (if Csv.wsSep sep then pointLastWs else pointLastSep sep) (csvSkipper comment)
+        (bytes.length + 1) bytes [] ≠ .fuel := by
+  have hc : consumes (if Csv.wsSep sep then pointLastWs else pointLastSep sep) = true := by split <;> rfl
+  have hw : wfG (if Csv.wsSep sep then pointLastWs else pointLastSep sep) = true := by split <;> rfl
+  have ht := Csv.readPointsLastLoopR_terminates _ (csvSkipper comment) hc hw (bytes.length + 1) bytes [] (Nat.lt_succ_self _)
+  exact ⟨Csv.readPointsLastLoop_eq _ _ _ _ _, ht.1, ht.2⟩
+
+open SharkVerif.Peg in
+/-- non-vacuity: three records through the loop; and a grammar that does not consume would spin -/
+example : Csv.readPointsLastLoopR (pointLastSep ',') (csvSkipper '#') 20 "1,2,0\n3,4,1\n5,6,0".toList []
+      = .done [(0, [Val.fin false 1 0, Val.fin false 1 1]), (1, [Val.fin false 3 0, Val.fin false 1 2]),
+               (0, [Val.fin false 5 0, Val.fin false 3 1])] ∧
+    Csv.readPointsLastLoopR (.star .real) (csvSkipper '#') 5 "x".toList [] = .spin := by decide
+
+open SharkVerif.Peg in
+/-- **C19, the grammars as they are written in `Csv.cpp` since the repair of F-C19-11** (`cleanNumber<T>()` =
+`&p >> p` in place of every `double_` / `auto_`): they parse every input exactly like the modelled grammars — same
+success, same rest, same attribute events — so `import_bytes_wellformed_or_error_csv`, `parser_total` and
+`last_column_loop_terminates` are statements about the repaired grammar text, and the scalar readers
+`*cleanNumber<T>()` are `*int_` / `*uint_` / `*double_`. -/
+theorem csv_grammars_as_written (g sk : G) (s : List Char) :
+    phraseParse (cleanReal g) sk s = phraseParse g sk s ∧
+    phraseParse (.star (clean .int)) sk s = phraseParse valuesInt sk s ∧
+    phraseParse (.star (clean .uint)) sk s = phraseParse valuesUInt sk s ∧
+    phraseParse (.star (clean .real)) sk s = phraseParse valuesReal sk s := by
+  have hstar : ∀ p : G, phraseParse (.star (clean p)) sk s = phraseParse (.star p) sk s := by
+    intro p
+    have : parse (skipper sk) (clean p) = parse (skipper sk) p := funext (Csv.parse_clean _ p)
+    simp only [phraseParse, parse, this]
+  exact ⟨Csv.phraseParse_cleanReal g sk s, hstar _, hstar _, hstar _⟩
+
+open SharkVerif.Peg in
+/-- non-vacuity: the repaired text of the row grammar is a different grammar (with look-ahead) … -/
+example : cleanReal (rowsSep ',') ≠ rowsSep ',' ∧
+    phraseParse (cleanReal (rowsSep ',')) (csvSkipper '#') "1e309,7\n".toList = .fail ∧
+    phraseParse (cleanReal (rowsSep ',')) (csvSkipper '#') "1e308,7\n".toList ≠ .fail := by decide
+
+open SharkVerif.Peg in
+/-- the three `csvStringToData` families with the grammar text of `Csv.cpp` (every `double_` replaced by
+`cleanNumber<double>()`), spelled out: reader with `cleanReal g`, then the same post-parse logic -/
+def importBytesAsWritten (bytes : List Char) (sep comment : Char) (labelFirst : Bool) (numOut maxB : Nat) :
+    Outcome Val × Outcome Val × Outcome Val :=
+  let rows := match phraseParse (cleanReal (if Csv.wsSep sep then rowsWs else rowsSep sep)) (csvSkipper comment) bytes with
+    | .ok [] evs => some ((Csv.splitMarks evs [] []).map Csv.valsOf)
+    | _ => none
+  let ptsFirst := match phraseParse (cleanReal (if Csv.wsSep sep then pointsFirstWs else pointsFirstSep sep)) (csvSkipper comment) bytes with
+    | .ok [] evs => some ((Csv.splitMarks evs [] []).map fun r => (Csv.labelOf r, Csv.valsOf r))
+    | _ => none
+  let ptsLast := Csv.readPointsLastLoop (cleanReal (if Csv.wsSep sep then pointLastWs else pointLastSep sep)) (csvSkipper comment)
+    (bytes.length + 1) bytes []
+  ((match rows with | none => .error | some r => Csv.importRows r maxB),
+   (match (if labelFirst then ptsFirst else ptsLast) with | none => .error | some p => Csv.importClass p maxB),
+   (match rows with | none => .error | some r => Csv.importRegr r labelFirst numOut maxB))
+
+open SharkVerif.Peg in
+theorem readPointsLastLoop_congr (g g' sk : G) (h : ∀ s, phraseParse g sk s = phraseParse g' sk s) :
+    ∀ (f : Nat) (s : List Char) (acc : List (Int × List Val)),
+      Csv.readPointsLastLoop g sk f s acc = Csv.readPointsLastLoop g' sk f s acc := by
+  intro f
+  induction f with
+  | zero => intro s acc; rfl
+  | succ f ih =>
+    intro s acc
+    simp only [Csv.readPointsLastLoop, h s]
+    cases phraseParse g' sk s with
+    | ok rest evs =>
+      simp only
+      split
+      · rfl
+      · split
+        · exact ih _ _
+        · rfl
+    | fail => rfl
+    | hang => rfl
+
+open SharkVerif.Peg in
+/-- **C19, first sentence, CSV importers with the repaired grammar text (`cleanNumber`), from bytes.**  The
+importers as written in `Csv.cpp` since 25239316 are the modelled importers — on every byte sequence, separator,
+comment character, label position, number of outputs and batch size — hence return a well-formed dataset or
+the library's exception. -/
+theorem import_bytes_wellformed_or_error_csv_as_written (bytes : List Char) (sep comment : Char) (labelFirst : Bool)
+    (numOut maxB : Nat) :
+    importBytesAsWritten bytes sep comment labelFirst numOut maxB =
+      (Csv.importRowsBytes bytes sep comment maxB, Csv.importClassBytes bytes labelFirst sep comment maxB,
+       Csv.importRegrBytes bytes labelFirst numOut sep comment maxB) ∧
+    Acceptable (importBytesAsWritten bytes sep comment labelFirst numOut maxB).1 maxB ∧
+    Acceptable (importBytesAsWritten bytes sep comment labelFirst numOut maxB).2.1 maxB ∧
+    Acceptable (importBytesAsWritten bytes sep comment labelFirst numOut maxB).2.2 maxB := by
+  have heq : importBytesAsWritten bytes sep comment labelFirst numOut maxB =
+      (Csv.importRowsBytes bytes sep comment maxB, Csv.importClassBytes bytes labelFirst sep comment maxB,
+       Csv.importRegrBytes bytes labelFirst numOut sep comment maxB) := by
+    unfold importBytesAsWritten Csv.importRowsBytes Csv.importClassBytes Csv.importRegrBytes Csv.readRows
+      Csv.readPointsFirst Csv.readPointsLast
+    simp only [Csv.phraseParse_cleanReal,
+      readPointsLastLoop_congr _ _ _ (fun s => Csv.phraseParse_cleanReal _ (csvSkipper comment) s)]
+    cases labelFirst <;> rfl
+  have h := import_bytes_wellformed_or_error_csv bytes sep comment labelFirst numOut maxB
+  rw [heq]
+  exact ⟨rfl, h.1, h.2.1, h.2.2⟩
 
 /-! ## the parsers never hang -/
 
